@@ -261,8 +261,7 @@ Section Opt.
 
   (* limits *)
   Definition within (f : ag) : Prop :=
-    ag_len f <= o_max_ix o /\
-    (group_size true None ts f <= o_max_size o \/ group_size true (o_memo o) ts f <= o_max_size o).
+    ag_len f <= o_max_ix o /\ group_size true (o_memo o) ts f <= o_max_size o.
 
   Lemma merged_size_group x y : merged_size (o_memo o) ts x y = group_size true (o_memo o) ts (merge x y).
   Proof.
@@ -275,7 +274,7 @@ Section Opt.
     intros HS. induction 1 as [g Hg | x y px py Hx IHx Hy IHy Ho]; [auto|].
     destruct (optimizable_spec _ _ Ho) as [_ [_ [_ [D E]]]]. split.
     - unfold ag_len, lenZ in *. cbn [merge a_ixs]. rewrite app_length. lia.
-    - right. rewrite <- merged_size_group. exact E.
+    - rewrite <- merged_size_group. exact E.
   Qed.
 End Opt.
 
@@ -422,7 +421,7 @@ Qed.
 Lemma validate_within o ts g : validate_one o ts g = true -> within o ts g.
 Proof.
   unfold validate_one. intros H. apply andb_prop in H. destruct H as [A B].
-  apply Z.leb_le in A, B. split; [exact A | left; exact B].
+  apply Z.leb_le in A, B. split; [exact A | exact B].
 Qed.
 
 (* ---------- provenance at the level of parallel groups ---------- *)
